@@ -124,9 +124,26 @@ def _replay(path):
         print("implementation: status=%s in all %d attempts" % (res["status"], tries))
     for o in res.get("obs", [])[-25:]:
         print("   impl  b%-2d t=%-6d %s" % (o["b"], o["t"], json.dumps({k: v for k, v in o.items() if k not in ("b", "t")})))
-    print("model : the repaired model has no panic for this label sequence (client_never_panics_partial), run is released "
-          "(run_is_released), Close returns (close_always_progresses); the unguarded variant is refuted "
-          "(run_never_stuck_unguarded_refuted)")
+    if hit and any("CallProgressive" in s_ for s_, _ in hit[1]):
+        print("model : carries this panic -- step_chunk yields Panic 924 once the peer is closed "
+              "(client_never_panics_refuted, witness feeder_panic_trace); it is exactly the trigger that "
+              "client_never_panics_partial excludes (no_feeder_after_close)")
+    elif res["status"] == "ok":
+        try:
+            cfg, terms, readable = cl.build_case(sched, res)
+            fl, err = cl.run_cases([(0, cfg, terms)], "replay17", shards=1)
+            if fl:
+                k = fl[0][1]
+                print("model : does NOT explain burst %d; it admits: %s" % (k, cl.predict((0, cfg, terms), k, "replay17")))
+                print("        observed: %s" % readable[k]["observed"])
+            else:
+                print("model : explains every burst of this run" + (" (%s)" % err if err else ""))
+        except cl.Unmodelled as e:
+            print("model : observation outside the model's alphabet: %s" % e)
+    else:
+        print("model : the repaired model has no panic for this label sequence (client_never_panics_partial), run is "
+              "released (run_is_released), Close returns (close_always_progresses); the unguarded rendezvous is refuted "
+              "(run_never_stuck_unguarded_refuted)")
     print("verdict: %s" % ("VIOLATION reproduced" if hit else "not reproduced"))
     return 1 if hit else 0
 
